@@ -39,6 +39,10 @@ CONFIGS = {
     'attempts1': dict(cfg=dict(hold=9), world_env={'tcp.attempts': 1}),
     'gr': dict(cfg=dict(hold=9, caps='graceful-restart 120;'), world_env={}),
     'passive': dict(cfg=dict(hold=9, extra='passive true;'), world_env={'bgp.passive': True}),
+    # the peer's OPEN carries Hold Time 0 (RFC 4271 4.2: legal, no timers): nothing but the KEEPALIVE itself
+    # stands between OPENCONFIRM and ESTABLISHED
+    'hold0': dict(cfg=dict(hold=9), world_env={}, remote_hold=0),
+    'hold0local': dict(cfg=dict(hold=0), world_env={}),
 }
 
 RELOAD_CHANGED_ROUTES = 'route 10.0.9.0/24 next-hop 1.1.1.1;'
@@ -147,7 +151,7 @@ def run_one(args):
     (config_name, steps), choices = args
     conf = CONFIGS[config_name]
     cfg = edev.base_config(**conf['cfg'])
-    summary, tr = edev.run(Env, cfg, choices, steps, env_kwargs=dict(config_name=config_name, hold=9, script=SCRIPT), world_env=conf['world_env'])
+    summary, tr = edev.run(Env, cfg, choices, steps, env_kwargs=dict(config_name=config_name, hold=conf.get('remote_hold', 9), script=SCRIPT), world_env=conf['world_env'])
     viols = monitors(summary)
     outcome = (tuple(p['fsm'] for p in summary['peers']), tuple(len(s['tx']) for s in summary['sockets']), tuple(s['closed'] for s in summary['sockets']))
     return (viols, outcome, tr.steps, summary['end']), tr.menus
@@ -242,10 +246,10 @@ def run(ctx: core.Ctx) -> None:
     if os.environ.get('C05_BOUND'):
         plan = [(c, int(os.environ['C05_BOUND'])) for c in CONFIGS]
     elif ctx.tier == 'quick':
-        plan = [('active', 2), ('attempts1', 1), ('gr', 1), ('passive', 1)]
+        plan = [('active', 2), ('attempts1', 1), ('gr', 1), ('passive', 1), ('hold0', 1)]
     else:
         # every configuration to 2 deviations first, then a third (reduced menu) on the active one
-        plan = [('active', 2), ('attempts1', 2), ('gr', 2), ('passive', 2), ('active', 3)]
+        plan = [('active', 2), ('attempts1', 2), ('gr', 2), ('passive', 2), ('hold0', 2), ('hold0local', 1), ('active', 3)]
     bound = max(b for _, b in plan)
     ctx.rule = (f'every execution of the default session script (connect, OPEN/KEEPALIVE exchange, 2 UPDATEs in, 1 API announce, idle) '
                 f'over {STEPS} macro steps with <= k deviations from a state-dependent menu (connect refused, EOF, RST, EPIPE, unexpected message '
